@@ -39,6 +39,13 @@ pub mod oneshot {
     #[verifier::external_body]
     #[verifier::accept_recursive_types(T)]
     pub struct Receiver<T> { p: std::marker::PhantomData<T> }
+    #[verifier::external_body]
+    pub fn channel<T>() -> (r: (Sender<T>, Receiver<T>))
+    { unimplemented!() }
+    impl<T> Receiver<T> {
+        #[verifier::external_body]
+        pub fn fuse(self) -> (r: Fuse<Receiver<T>>) { unimplemented!() }
+    }
     impl<T> Sender<T> {
         pub uninterp spec fn id(&self) -> int;
         #[verifier::external_body]
